@@ -1025,6 +1025,13 @@ impl Prop for C18 {
     fn id(&self) -> &'static str {
         "C18"
     }
+    fn watchdog_secs(&self, tier: Tier) -> u64 {
+        if tier == Tier::Quick {
+            240
+        } else {
+            1200
+        }
+    }
     fn level(&self) -> &'static str {
         "fault_enumeration"
     }
